@@ -83,6 +83,122 @@ def g_new(n, D=(), B=(), U=(), C=(), N=None):
     return g
 
 
+def rand_path_template(rng, kmin=3, kmax=7, kinds=("->", "<-", "<->", "--"), extra_nodes=2, noise=0.15):
+    """A graph grown around one long path v0..vk whose hops have random marks (inside the domain of the
+    separation properties: acyclic directed layer, no undirected edge at a node carrying an arrowhead), plus
+    the conditioning set that makes exactly this path m-connecting: every collider (or, with probability 0.3,
+    a fresh directed descendant of it) is in Z, no non-collider is.  Random graphs almost never contain
+    long connecting paths through several colliders / undirected stretches; this generator contains nothing else.
+    Returns (g, x, y, Z, colliders, noncolliders) with the nodes randomly numbered."""
+    # marks at inner nodes: hop i joins v_i and v_{i+1}; mark of hop i at its right end / of hop i+1 at its left end
+    def right(h):
+        return "a" if h in ("->", "<->") else "t"
+
+    def left(h):
+        return "a" if h in ("<-", "<->") else "t"
+
+    def grammar():
+        # x  [end]  c1  [mid]  c2 ... [end]  y : every c_i a collider, everything inside a stretch a non-collider
+        def mid():
+            r = rng.random()
+            if r < 0.15:
+                return ["<->"]
+            if r < 0.55:
+                return ["<-"] + ["--"] * rng.choice((0, 1, 2, 2, 3)) + ["->"]
+            if r < 0.75:
+                return ["<-"] * rng.choice((1, 2)) + ["->"] * rng.choice((1, 2))
+            if r < 0.9:
+                return ["<->"] + ["->"] * rng.choice((1, 2))
+            return ["<-"] * rng.choice((1, 2)) + ["<->"]
+
+        def end_in():       # from an endpoint into a collider
+            r = rng.random()
+            if r < 0.4:
+                return ["->"] * rng.choice((1, 1, 2))
+            if r < 0.6:
+                return ["--"] * rng.choice((1, 2)) + ["->"]
+            if r < 0.8:
+                return ["<->"]
+            return ["<-"] + ["->"]
+
+        def mirror(seg):
+            return [{"->": "<-", "<-": "->"}.get(h, h) for h in reversed(seg)]
+        ncol = rng.choice((1, 2, 2, 3))
+        hs = end_in()
+        for _j in range(ncol - 1):
+            hs += mid()
+        return hs + mirror(end_in())
+    for _ in range(200):
+        if "--" in kinds and "<->" in kinds and rng.random() < 0.5:
+            hops = grammar()
+            k = len(hops)
+            break
+        k = rng.randint(kmin, kmax)
+        hops = []
+        for _i in range(k):
+            # stretches: the previous kind is repeated with probability 0.4 (long undirected / directed /
+            # bidirected runs between colliders), otherwise a fresh kind
+            if hops and rng.random() < 0.4 and hops[-1] in kinds:
+                hops.append(hops[-1])
+            else:
+                hops.append(rng.choice(kinds))
+        ok = True
+        for i in range(k - 1):
+            a, b = hops[i], hops[i + 1]
+            if (a == "--" and left(b) == "a") or (b == "--" and right(a) == "a"):
+                ok = False
+        if ok:
+            break
+    else:
+        hops = ["->", "<-", "->"]
+        k = 3
+    n_path = k + 1
+    D, B, U = [], [], []
+    for i, h in enumerate(hops):
+        if h == "->":
+            D.append((i, i + 1))
+        elif h == "<-":
+            D.append((i + 1, i))
+        elif h == "<->":
+            B.append((i, i + 1))
+        else:
+            U.append((i, i + 1))
+    col = [i + 1 for i in range(k - 1) if right(hops[i]) == "a" and left(hops[i + 1]) == "a"]
+    non = [i for i in range(1, k) if i not in col]
+    n = n_path
+    Z = []
+    for c in col:
+        if rng.random() < 0.3:
+            d = n
+            n += 1
+            D.append((c, d))
+            if rng.random() < 0.3:
+                D.append((d, n))
+                d = n
+                n += 1
+            Z.append(d)
+        else:
+            Z.append(c)
+    # a little noise that keeps the domain: bidirected edges between nodes without undirected edges, and extra
+    # directed edges from fresh parentless nodes into path nodes without undirected edges
+    und = set(v for e in U for v in e)
+    free = [v for v in range(n) if v not in und]
+    for _ in range(extra_nodes):
+        if free and rng.random() < 0.5:
+            D.append((n, rng.choice(free)))
+            n += 1
+    have = set(frozenset(e) for e in D + B + U)
+    for a in free:
+        for b in free:
+            if a < b and rng.random() < noise and frozenset((a, b)) not in have and abs(a - b) > 1:
+                B.append((a, b))
+    perm = list(range(n))
+    rng.shuffle(perm)
+    f = lambda e: (perm[e[0]], perm[e[1]])
+    g = g_new(n, D=[f(e) for e in D], B=[f(e) for e in B], U=[f(e) for e in U])
+    return g, perm[0], perm[k], sorted(perm[z] for z in Z), [perm[c] for c in col], [perm[v] for v in non]
+
+
 def g_nodes(g):
     return g.get("N", list(range(g["n"])))
 
@@ -139,6 +255,10 @@ class Labels:
             # labels whose truth value is False (0, (), "", frozenset()) next to multiples of 8 (which share
             # hash buckets in small sets): a node is a node whatever bool(label) says
             lab = {3: 0, 4: (), 5: "".join([]), 6: frozenset()}.get(i, 8 * (i + 1))
+        elif f == "auglike":
+            # (not in FAMILIES: used by C20 only) ordinary nodes named like the library's generated
+            # intervention / domain nodes ('F', k) / ('S', k)
+            lab = (("F", "S")[i % 2], i // 2)
         else:
             raise ValueError(f)
         self._inv[lab] = i
@@ -759,18 +879,21 @@ def warmup(G, call, layers=("directed", "bidirected", "circle", "undirected"), s
     and exceptions are ignored): (1) a count-preserving re-pointing of one edge (see _warmup_raw mode 0:
     memo tables validated by node / edge counts stay 'valid' but are stale); (2) a random detour that adds
     and removes surplus edges through single-edge and bulk APIs (state cleared in only some mutators).
-    Afterwards G is checked against its content before the warm-up and healed in place if anything differs
-    (e.g. because the function under test itself changed the graph), so the judged call always sees the
-    case's graph."""
+    After the excursions G is checked against its content before the warm-up and healed in place if anything
+    differs, so that the judged call sees the case's graph - unless a plain call of the function under test
+    alone changes the object: then the damage stays (see below)."""
     import zlib
     before = snapshot(G)
     content = _content(G)
     if salt is None:
         salt = zlib.crc32(repr(before).encode())
     ok = True
-    try:
+
+    def phases():
         _warmup_raw(G, call, layers, salt=(salt // 2) * 30)      # even salt, mode 0: re-point
         detour(G, call, salt | 1, layers)
+    try:
+        phases()
     except CallTimeout:
         raise
     except BaseException:
@@ -779,6 +902,26 @@ def warmup(G, call, layers=("directed", "bidirected", "circle", "undirected"), s
         if not ok or snapshot(G) != before:
             _heal(G, content)
             ok = snapshot(G) == before
+            if ok:
+                # was it the function under test that edited the object it was given?  One plain call on the
+                # healed graph: if that alone changes it, the excursions are repeated and nothing is healed -
+                # the judged call then sees what a user who keeps working with the object sees
+                try:
+                    call()
+                except CallTimeout:
+                    raise
+                except BaseException:
+                    pass
+                if snapshot(G) != before:
+                    try:
+                        phases()
+                    except CallTimeout:
+                        raise
+                    except BaseException:
+                        pass
+                    return False
+    except CallTimeout:
+        raise
     except BaseException:
         ok = False
     return ok
